@@ -299,13 +299,37 @@ func consumerFacts(repo string, ft *facts) error {
 	if fd == nil {
 		return fmt.Errorf("local.Service.NewRunNumber not found")
 	}
-	if len(fd.Body.List) >= 1 {
+	// serviceDelegates — the Consul branch makes the protocol call DIRECTLY, for every caller:
+	//   the FIRST statement of the body is `if cSrc, ok := <recv>.src.(*cfgbackend.ConsulSource); ok {`,
+	//   that block consists of the single statement `return cSrc.GetNextUInt32(<key>)` (no other
+	//   statement, so no wrapper, no deferred or spawned call, nothing between the callers and the
+	//   protocol), and <key> is one expression without function literals that calls nothing but
+	//   filepath.Join / path.Join / getConsulRuntimePrefix.
+	recvName := ""
+	if fd.Recv != nil && len(fd.Recv.List) == 1 && len(fd.Recv.List[0].Names) == 1 {
+		recvName = fd.Recv.List[0].Names[0].Name
+	}
+	if len(fd.Body.List) >= 1 && recvName != "" {
 		if ifs, ok := fd.Body.List[0].(*ast.IfStmt); ok && ifs.Init != nil {
-			if as, isAs := ifs.Init.(*ast.AssignStmt); isAs && len(as.Lhs) == 2 && len(as.Rhs) == 1 &&
-				strings.HasSuffix(es(as.Rhs[0]), ".(*cfgbackend.ConsulSource)") && es(ifs.Cond) == es(as.Lhs[1]) && len(ifs.Body.List) == 1 {
+			if as, isAs := ifs.Init.(*ast.AssignStmt); isAs && len(as.Lhs) == 2 && len(as.Rhs) == 1 && as.Tok == token.DEFINE &&
+				es(as.Rhs[0]) == recvName+".src.(*cfgbackend.ConsulSource)" && es(ifs.Cond) == es(as.Lhs[1]) && len(ifs.Body.List) == 1 {
 				if r, isR := ifs.Body.List[0].(*ast.ReturnStmt); isR && len(r.Results) == 1 {
-					if c, fun := callOf(r.Results[0]); c != nil && fun == es(as.Lhs[0])+".GetNextUInt32" {
-						ft.serviceDelegates = true
+					if c, fun := callOf(r.Results[0]); c != nil && fun == es(as.Lhs[0])+".GetNextUInt32" && len(c.Args) == 1 && c.Ellipsis == token.NoPos {
+						plain := true
+						ast.Inspect(c.Args[0], func(x ast.Node) bool {
+							switch n := x.(type) {
+							case *ast.FuncLit:
+								plain = false
+							case *ast.CallExpr:
+								switch es(n.Fun) {
+								case "filepath.Join", "path.Join", "getConsulRuntimePrefix":
+								default:
+									plain = false
+								}
+							}
+							return true
+						})
+						ft.serviceDelegates = plain
 					}
 				}
 			}
@@ -681,7 +705,7 @@ func genFacts(repo string) (string, error) {
 	w("go/ast: the pair passed to kv.CAS is the variable assigned from kv.Get; its ModifyIndex/Key are never assigned; it is re-created only under `== nil` with ModifyIndex 0", "casPairIsReadPair", ft.casPairIsReadPair)
 	w("go/ast: the boolean result of kv.CAS is checked by `if !ok { err = <non-nil> }` right after the error check", "casOkChecked", ft.casOkChecked)
 	w("go/ast: Get, ParseUint and CAS each assign err and are immediately followed by `if err != nil { return }`; results are named (value uint32, err error); the function ends in a bare return", "errorsReturned", ft.errorsReturned)
-	w("go/ast: local.Service.NewRunNumber returns cSrc.GetNextUInt32(…) when the source is a *cfgbackend.ConsulSource", "serviceDelegates", ft.serviceDelegates)
+	w("go/ast: the first statement of local.Service.NewRunNumber is `if cSrc, ok := s.src.(*cfgbackend.ConsulSource); ok {…}` and that block is the single statement `return cSrc.GetNextUInt32(<key>)` — a DIRECT call by every caller (no wrapper, closure, defer/go or other statement; <key> calls nothing but filepath.Join/getConsulRuntimePrefix)", "serviceDelegates", ft.serviceDelegates)
 	w("go/ast: every `x, err := ….NewRunNumber()` in core/environment/environment.go is immediately followed by `if err != nil { e.Cancel(err); return }`", "startCancelledOnError", ft.startCancelledOnError)
 	w("go/ast: in before_event (environment.go) every `return` before the top-level `if e.Event == \"START_ACTIVITY\"` sits in the `if errHooks != nil` block of the negative-weight hook pass", "startReachedAfterNegHooksOnly", ft.startReachedAfterNegHooksOnly)
 	w("go/ast: `n, err := the.ConfSvc().NewRunNumber()` is a statement OF the START_ACTIVITY branch (not nested under if/switch/loop, no return before it) and the only NewRunNumber call of the callback", "startCallUnconditional", ft.startCallUnconditional)
